@@ -15,6 +15,7 @@ import (
 	"errors"
 	"fmt"
 	"strings"
+	"time"
 
 	"gorm.io/gorm"
 
@@ -37,6 +38,7 @@ type Case struct {
 	SessOpts   int      `json:"session_opts,omitempty"`   // with ViaSession: 1 = also PrepareStmt, 2 = also SkipHooks, 3 = both and SkipDefaultTransaction
 	ViaConn    bool     `json:"via_connection,omitempty"` // the operation runs inside h.Connection(func(tx) …), on one dedicated connection
 	Sibling    int      `json:"sibling,omitempty"`        // 1..5: other handles bound to another context are derived from the operation's handle first and abandoned
+	Deadline   bool     `json:"deadline,omitempty"`       // the caller's context also has a deadline (an hour away: it never fires)
 	Warm       bool     `json:"warm"`                     // run the operation once before (statements already prepared / schemas parsed)
 	HookStmts  bool     `json:"hook_stmts"`               // model hooks issue a statement of their own through the *gorm.DB they are given
 	MaxSites   int      `json:"max_sites"`
@@ -78,6 +80,7 @@ func (Prop) Gen(r *core.Rand, tier string) interface{} {
 		c.Sibling = r.Range(1, 5)
 	}
 	c.ViaConn = r.Chance(12)
+	c.Deadline = r.Chance(35)
 	if c.ViaSession && r.Chance(50) {
 		c.SessOpts = r.Range(1, 3)
 	}
@@ -210,7 +213,14 @@ func (p Prop) exec(c *Case, cancelAt int) (*execInfo, error) {
 			warm := context.WithValue(context.Background(), tagKey{}, "warm-up")
 			c.op(e.DB.WithContext(warm))
 		}
-		ctx, cancel := context.WithCancel(context.WithValue(context.Background(), tagKey{}, info.tag))
+		parent := context.WithValue(context.Background(), tagKey{}, info.tag)
+		if c.Deadline {
+			// code that re-arms the caller's deadline on a context of its own loses the cancellation
+			var stop context.CancelFunc
+			parent, stop = context.WithDeadline(parent, time.Now().Add(time.Hour))
+			defer stop()
+		}
+		ctx, cancel := context.WithCancel(parent)
 		defer cancel()
 		info.startSeq = e.Drv.Tick()
 		if pool != nil {
@@ -347,6 +357,11 @@ func (p Prop) Run(ci interface{}, focus *core.Violation) *core.Outcome {
 		}
 		return false
 	}
+	if v := base.sr.HungViolation(); v != nil {
+		v.Key += "|tagged"
+		report(v, h0, -2)
+		return out
+	}
 	if l := base.sr.Leak(); l != "" {
 		if report(&core.Violation{Class: "leak", Key: k + "|tagged", Detail: l}, h0, -2) {
 			return out
@@ -409,6 +424,11 @@ func (p Prop) Run(ci interface{}, focus *core.Violation) *core.Outcome {
 			return out
 		}
 		out.Runs++
+		if v := x.sr.HungViolation(); v != nil {
+			v.Key += "|cancelled"
+			report(v, h0, at)
+			return out
+		}
 		fired := x.cancelSeq != 0
 		h := note(x, fmt.Sprintf("cancel@%d", at), fired)
 		if at == -1 {
